@@ -23,6 +23,35 @@ func (c *fctx) cbLeanType(o types.Object, cb cbCfg) (string, error) {
 			return "", err
 		}
 		return fmt.Sprintf("%s → σ → Res (%s × σ)", t.lean, t.lean), nil
+	case "recv0", "recv1":
+		rt := "Pico.EncLow.Buf"
+		if c.recv != nil {
+			if t, err := c.g.ltypeOf(c.recv.Type()); err == nil {
+				rt = t.lean
+			}
+		}
+		if sig.Results().Len() == 0 {
+			return fmt.Sprintf("%s → Res %s", rt, paren(rt)), nil
+		}
+		t, err := c.g.ltypeOf(sig.Results().At(0).Type())
+		if err != nil {
+			return "", err
+		}
+		return fmt.Sprintf("%s → Res (%s × %s)", rt, rt, t.lean), nil
+	case "source":
+		var parts []string
+		for i := 0; i < sig.Params().Len(); i++ {
+			t, err := c.g.ltypeOf(sig.Params().At(i).Type())
+			if err != nil {
+				return "", err
+			}
+			parts = append(parts, t.lean)
+		}
+		t, err := c.g.ltypeOf(sig.Results().At(0).Type())
+		if err != nil {
+			return "", err
+		}
+		return strings.Join(parts, " → ") + " → " + t.lean, nil
 	case "sink":
 		var parts []string
 		for i := 0; i < sig.Params().Len(); i++ {
@@ -131,6 +160,10 @@ func (c *fctx) forStmt(x *ast.ForStmt, rest []ast.Stmt, k *cont, n int) (string,
 	savedPre := c.pre
 	c.pre = nil
 	var binders, roNames, modTypes []string
+	if c.cfg.extra != "" {
+		binders = append(binders, c.cfg.extra)
+		roNames = append(roNames, c.cfg.extraArgs)
+	}
 	for _, o := range ro {
 		t, err := c.leanTypeOfObj(o)
 		if err != nil {
@@ -297,6 +330,9 @@ func (g *golite) translate(cfg *fnCfg) (string, error) {
 		ptrs: map[types.Object]bool{}, cbs: map[types.Object]cbCfg{}}
 	sig := info.Defs[fd.Name].Type().(*types.Signature)
 	var binders []string
+	if cfg.extra != "" {
+		binders = append(binders, cfg.extra)
+	}
 	var recvBinder string
 	if sig.Recv() != nil {
 		o := sig.Recv()
@@ -312,7 +348,7 @@ func (g *golite) translate(cfg *fnCfg) (string, error) {
 			binders = append(binders, fmt.Sprintf("(%s : %s)", name, t.lean))
 		}
 	}
-	if len(cfg.callbacks) > 0 {
+	if cfg.needsState() {
 		c.state = types.NewVar(token.NoPos, nil, "s", types.Typ[types.Int])
 		c.names[c.state] = "s"
 		c.used["s"] = true
